@@ -119,8 +119,10 @@ PROPS["C08"] = dict(
     kani=[],
     native=[dict(files=["contracts/C07/whole_run_native.rs", "contracts/C08/c08_native.rs"],
                  harnesses={"c08_native_determinism": dict(anchor="whole runs of the shipped templates (determinism) + Random",
-                            bound="BOUNDED STAND-IN, native run: 19 shipped templates x seeds {1,2} x {sequential twice, cloned configuration, parallel evaluator 3 times}, 8 iterations; the 13 real-valued templates also re-used across two problem instances (3-dim narrow / 5-dim wide domain, both orders): used vs fresh configuration object, clone of a used configuration; generator and child-generator streams for 4 seeds; Sequential vs Parallel evaluate on populations of 0..5 with every mix of pre-evaluated individuals")})],
-    min_obligations={"quick": 3, "thorough": 3},
+                            bound="BOUNDED STAND-IN, native run: 19 shipped templates x seeds {1,2} x {sequential twice, cloned configuration, parallel evaluator 3 times}, 8 iterations; the 13 real-valued templates also re-used across two problem instances (3-dim narrow / 5-dim wide domain, both orders): used vs fresh configuration object, clone of a used configuration; generator and child-generator streams for 4 seeds; Sequential vs Parallel evaluate on populations of 0..5 with every mix of pre-evaluated individuals"),
+                            "c08_native_experiment_runner": dict(anchor="experiments::par_experiment (user-supplied generator, default seeding)",
+                            bound="BOUNDED STAND-IN, native run: par_experiment with 4 runs x setup closures inserting no generator / Random::new(777) / Random::new(0): (seed, first draw) seen by each run")})],
+    min_obligations={"quick": 4, "thorough": 4},
     uncovered=["thread-schedule independence beyond the schedules rayon happens to produce in 3 repetitions", "the two ACO templates",
                "RandomIter::next / Random::with_rng under contract (struct holding &mut / fn-pointer closure: Verus rejects)"],
     assumptions=["Random::default() is modelled as one unknown value per execution (both functions call it at most once)",
@@ -325,7 +327,7 @@ PROPS["C10"] = dict(
                  harnesses={"c10_native_logical_and_optimum": dict(anchor="And::evaluate",
                             bound="BOUNDED STAND-IN, native enumeration: And/Or over every operand vector of length 0..4 (2 evaluations each), Not(And), OptimumReached on a 3x6 grid"),
                             "c10_native_loops_and_chance": dict(anchor="Loop + LessThanN + EveryN + RandomChance (whole loops)",
-                            bound="BOUNDED STAND-IN, native run: loops bounded by n in 0..7 (passes, tests, progress per pass) x every-m for m in 1..4; LessThanN evaluated directly on 6 bounds x 16 observed values (below, at, above n, up to u32::MAX) x {iterations, evaluations}: result and progress value/n; an evaluation-bounded loop that overshoots its budget; RandomChance frequency over 20000 draws for 6 probabilities")})],
+                            bound="BOUNDED STAND-IN, native run: loops bounded by n in 0..7 (passes, tests, progress per pass) x every-m for m in 1..4; LessThanN evaluated directly on 6 bounds x 16 observed values (below, at, above n, up to u32::MAX) x {iterations, evaluations}: result and progress value/n; an evaluation-bounded loop that overshoots its budget; RandomChance frequency over 20000 draws for 6 probabilities, and p = 0 / p = 1 under degenerate generators (every draw the smallest / largest possible)")})],
     min_obligations={"quick": 18, "thorough": 18},
     uncovered=["And/Or::evaluate (closure capturing &mut state: Verus rejects; Kani does not terminate)", "the VALUE of the progress written by LessThanN (float division is uninterpreted)",
                "OptimumReached", "RandomChance (probability)"],
